@@ -78,7 +78,7 @@ type Block struct {
 	Runs  Para   `json:"runs,omitempty"`  // para, heading, item
 	Level int    `json:"level,omitempty"` // heading: 1..9
 	How   string `json:"how,omitempty"`   // heading
-	Style string `json:"style,omitempty"` // para: optional non-heading paragraph style ("" | "body" | "quote")
+	Style string `json:"style,omitempty"` // para: optional non-heading paragraph style ("" | "body" | "quote" | "lead": DOCX style that inherits bold 16 pt and switches bold off)
 	List  int    `json:"list,omitempty"`  // item: index into Doc.Lists
 	Depth int    `json:"depth,omitempty"` // item: 0-based nesting depth
 	Table *Table `json:"table,omitempty"`
